@@ -42,14 +42,19 @@ static double dmax(double a, double b) { return a > b ? a : b; }
 #include "models/C15_tol.hpp"
 // regime of an ellipsoid / of an elliptic-function object / of a Carlson tuple: tolerances are scheduled per regime so that the
 // bound used for terrestrial ellipsoids and moderate parameters is not diluted by the extreme corners of the lattices
-static const char* ell_regime(double f) { double af = std::fabs(f); return af <= 1 / 150.0 * (1 + 1e-12) ? "small" : (af <= 1.0 ? "moderate" : "extreme"); }
+// ellipsoids: small |f| <= 1/150; extreme b/a <= 0.1 or b/a > 2; moderate otherwise (0.1 < b/a <= 2)
+static const char* ell_regime(double f) { double af = std::fabs(f); return af <= 1 / 150.0 * (1 + 1e-12) ? "small" : (f >= 0.9 - 1e-9 || f < -1.0 ? "extreme" : "moderate"); }
 
 static const char* AUXN[6] = {"phi", "beta", "theta", "mu", "chi", "xi"};
 
 // ------------------------------------------------------------------ ellipsoids
 struct ED { const char* name; double ba; };
-static const ED ELLD[8] = {{"WGS84", 1 - 1 / 298.257223563}, {"b/a=1-1/150", 1 - 1 / 150.0}, {"sphere", 1.0}, {"b/a=1+1/150", 1 + 1 / 150.0},
-                           {"b/a=1/2", 0.5}, {"b/a=2", 2.0}, {"b/a=0.01", 0.01}, {"b/a=100", 100.0}};
+static const ED ELLD[22] = {{"WGS84", 1 - 1 / 298.257223563}, {"b/a=1-1/150", 1 - 1 / 150.0}, {"sphere", 1.0}, {"b/a=1+1/150", 1 + 1 / 150.0},
+                           {"b/a=1/2", 0.5}, {"b/a=2", 2.0}, {"b/a=0.01", 0.01}, {"b/a=100", 100.0},
+                           // deep thorough tier: shapes between the above
+                           {"b/a=0.9", 0.9}, {"b/a=1.1", 1.1}, {"b/a=0.75", 0.75}, {"b/a=1.5", 1.5}, {"b/a=1/4", 0.25}, {"b/a=4", 4.0},
+                           {"b/a=0.1", 0.1}, {"b/a=10", 10.0}, {"b/a=0.03", 0.03}, {"b/a=30", 30.0},
+                           {"b/a=1-1/1000", 1 - 1 / 1000.0}, {"b/a=1+1/1000", 1 + 1 / 1000.0}, {"b/a=1-1/200", 1 - 1 / 200.0}, {"b/a=1+1/200", 1 + 1 / 200.0}};
 static const double A0 = 6378137.0;
 struct EnvE {
   const ED* d; double a, f; merid::Ell E; AuxLatitude aux; Ellipsoid ell;
@@ -108,18 +113,27 @@ static double ang_err(double y, double x, Q tref) {
 static std::vector<double> tan_alphabet(bool thorough) {
   std::vector<double> pos{1e-310, 1e-20, 1e-3, 0.57735026918962573, 1.0, 57295.77950726455 /* tan 89.999 */, 1e20};
   if (thorough) for (double x : {4.9406564584124654e-324, 2.2250738585072014e-308, 1e-160, 1e-8, 0.1, 0.41421356237309503, 2.4142135623730949, 10.0, 1e3, 1e8, 1e15, 1e160, 1.7976931348623157e308}) pos.push_back(x);
+  if (thorough) {   // deep tier: every 10th decade, and the tangents of a ladder of angles up to 89.99999999 degrees
+    for (int k = -300; k <= 300; k += 10) { double x = std::pow(10.0, k); if (std::find(pos.begin(), pos.end(), x) == pos.end()) pos.push_back(x); }
+    for (double d : {1e-6, 0.01, 1.0, 5.0, 10.0, 15.0, 20.0, 25.0, 35.0, 40.0, 50.0, 55.0, 60.0, 65.0, 70.0, 75.0, 80.0, 85.0, 88.0, 89.0, 89.9, 89.99, 89.9999, 89.999999, 89.99999999}) {
+      double x = std::tan(d * 0.017453292519943295); if (std::find(pos.begin(), pos.end(), x) == pos.end()) pos.push_back(x); }
+  }
   std::sort(pos.begin(), pos.end());
   std::vector<double> al;
   al.push_back(-INF); for (size_t i = pos.size(); i-- > 0;) al.push_back(-pos[i]);
   al.push_back(0.0); for (double p : pos) al.push_back(p); al.push_back(INF);
   return al;                                   // ordered, odd-symmetric
 }
+static const char* tan_class(double t) {
+  double a = std::fabs(t);
+  return a == DMIN ? "denorm_min" : (a == std::numeric_limits<double>::max() ? "dbl_max" : (a >= 1e170 && std::isfinite(a) ? "ge-1e170" : "normal"));
+}
 static AuxAngle mk(double t) { return std::isinf(t) ? AuxAngle(t > 0 ? 1.0 : -1.0, 0.0) : AuxAngle(t, 1.0); }
 
 // ------------------------------------------------------------------ auxiliary latitudes
 static void check_aux(Ctx& ctx, EnvE& v, int from, const std::vector<double>& al) {
   const AuxLatitude& A = v.aux;
-  mc::Fields F0{{"ellipsoid", v.d->name}, {"from", AUXN[from]}};
+  mc::Fields F0{{"ellipsoid", v.d->name}, {"ell_regime", v.reg}, {"from", AUXN[from]}};
   for (int to = 0; to < 6; ++to) for (int ex = 1; ex >= 0; --ex) {
     if (!ex && !v.small) continue;                              // series method: documented for |f| <= 1/150
     const char* meth = ex ? "exact" : "series";
@@ -131,7 +145,7 @@ static void check_aux(Ctx& ctx, EnvE& v, int from, const std::vector<double>& al
     for (double t : al) {
       Ctx::Case cs(ctx);
       std::string key = base + " tan " + fx(t);
-      tcls = std::fabs(t) == DMIN ? "denorm_min" : (std::fabs(t) == std::numeric_limits<double>::max() ? "dbl_max" : "normal");
+      tcls = tan_class(t);
       AuxAngle z = mk(t), r;
       int sg = mc::crashed([&] { r = A.Convert(from, to, z, ex); });
       if (sg) { cfail(ctx, key, "Convert crashed with signal " + fmti(sg), FF("crash")); continue; }
@@ -166,7 +180,7 @@ static void check_aux(Ctx& ctx, EnvE& v, int from, const std::vector<double>& al
       if (havep && !(rt >= prev)) cfail(ctx, key + " mono", "not monotonic: tan " + fx(rt) + " after " + fx(prev), FF("monotone"));
       prev = rt; havep = true;
       // inverse composition (exact method): to -> from brings the tangent back
-      if (ex && from != to && std::isfinite(t) && t != 0) {
+      if (ex && from != to && std::isfinite(t) && t != 0 && std::isfinite(rt)) {      // (a result that overflowed to +-inf cannot be brought back)
         AuxAngle b = A.Convert(to, from, r, true);
         Q fl = 2 * (Q)DMIN * (1 + fabsq((Q)t / (Q)rt) + (tph != 0 ? fabsq((Q)t / tph) : (Q)0));
         double condrt = 1 + (v.kappa(from, to, t) + (from == merid::CHI ? v.kappa(to, from, (double)ref) : 0)) / 8;
@@ -182,7 +196,7 @@ static void check_aux(Ctx& ctx, EnvE& v, int from, const std::vector<double>& al
       for (size_t i = 0; i < outs.size(); ++i) {
         double p = outs[i], m = outs[outs.size() - 1 - i];
         if (std::isnan(p) && std::isnan(m)) continue;                 // reported by the range predicate
-        tcls = std::fabs(al[i]) == DMIN ? "denorm_min" : (std::fabs(al[i]) == std::numeric_limits<double>::max() ? "dbl_max" : "normal");
+        tcls = tan_class(al[i]);
         if (!(p == -m)) { cfail(ctx, base + " odd " + fx(al[i]), "not odd: f(" + fx(al[i]) + ") = " + fx(p) + ", f(-x) = " + fx(m), FF("odd")); break; }
       }
     }
@@ -224,12 +238,12 @@ static void check_aux_degrees(Ctx& ctx, EnvE& v, int from) {
 
 // ToAuxiliary / FromAuxiliary, derivative, radii
 static void check_aux_misc(Ctx& ctx, EnvE& v, const std::vector<double>& al) {
-  mc::Fields F0{{"ellipsoid", v.d->name}};
+  mc::Fields F0{{"ellipsoid", v.d->name}, {"ell_regime", v.reg}};
   auto FF = [&](const std::string& kind) { mc::Fields F = F0; F.push_back({"kind", kind}); return F; };
   for (int aux = 0; aux < 6; ++aux) for (double t : al) {
     Ctx::Case cs(ctx);
     std::string key = std::string("auxmisc ") + v.d->name + " " + AUXN[aux] + " tan " + fx(t);
-    const char* tcls = std::fabs(t) == DMIN ? "denorm_min" : (std::fabs(t) == std::numeric_limits<double>::max() ? "dbl_max" : "normal");
+    const char* tcls = tan_class(t);
     auto FF = [&](const std::string& kind) { mc::Fields F = F0; F.push_back({"aux", AUXN[aux]}); F.push_back({"tan_class", tcls}); F.push_back({"kind", kind}); return F; };
     double diff = -777; int niter = -777;
     AuxAngle r = v.aux.ToAuxiliary(aux, mk(t), &diff), r0 = v.aux.ToAuxiliary(aux, mk(t)), c = v.aux.Convert(0, aux, mk(t), true);
@@ -244,7 +258,7 @@ static void check_aux_misc(Ctx& ctx, EnvE& v, const std::vector<double>& al) {
     if (!(niter >= 0 && niter < 1000)) cfail(ctx, key + " niter", "FromAuxiliary did not converge (" + fmti(niter) + " iterations)", FF("newton-iterations"));
     ctx.worst("aux.newton_iterations(reported)", niter, key);
     // derivative d tan(aux)/d tan(phi) against a symmetric difference of the definition in __float128
-    if (std::isfinite(t) && t > 0 && t >= 1e-300 && t <= 1e300) {
+    if (std::isfinite(t) && t > 0 && t >= 1e-300 && t <= 1e300 && std::isfinite(r.tan())) {
       Q hq = 1e-9Q, tp = (Q)t * (1 + hq), tm = (Q)t * (1 - hq);
       Q dref = (merid::to_aux(v.E, aux, tp) - merid::to_aux(v.E, aux, tm)) / (tp - tm);
       double ed = (double)(fabsq((Q)diff - dref) / fabsq(dref));
@@ -348,7 +362,8 @@ static void check_ellipsoid(Ctx& ctx, EnvE& v, bool thorough) {
     } else ctx.list("cross_class_skipped", std::string(v.d->name) + ": series classes Geodesic, Rhumb(series), TransverseMercator (documented for small flattening only)");
   }
   std::vector<double> lats{0, 1e-10, 15, 30, 45, 60, 89, 89.99999, 90};
-  if (thorough) for (double x : {1e-300, 1e-5, 5.0, 75.0, 85.0, 89.9, 89.999999999}) lats.push_back(x);
+  if (thorough) { for (double x : {1e-300, 1e-5, 5.0, 75.0, 85.0, 89.9, 89.999999999}) lats.push_back(x);
+                  for (double x : {1e-100, 1e-3, 0.1, 1.0, 10.0, 20.0, 25.0, 35.0, 40.0, 50.0, 55.0, 65.0, 70.0, 80.0, 87.0, 88.0, 89.5, 89.99, 89.999, 89.9999999}) lats.push_back(x); }
   const double azis[] = {0, 30, 45, 90, -120};
   const double a = v.a, f = v.f;
   TransverseMercator* tm = v.small ? new TransverseMercator(a, f, 1.0) : nullptr;
@@ -505,17 +520,19 @@ static void check_ellint(Ctx& ctx, const Obj& o, bool thorough) {
   EllipticFunction e = o.four ? EllipticFunction(o.k2, o.a2, o.kp2, o.ap2) : EllipticFunction(o.k2, o.a2);
   EllCache c; c.m = o.four ? ellf::mod4(o.k2, o.a2, o.kp2, o.ap2) : ellf::mod(o.k2, o.a2);
   const ellf::Mod& m = c.m;
-  const bool bothtiny = o.four && o.kp2 > 0 && o.kp2 < 1e-15 && o.ap2 > 0 && o.ap2 < 1e-15;
+  const bool bothtiny = o.four && o.kp2 > 0 && o.kp2 < 1e-5 && o.ap2 > 0 && o.ap2 < 1e-5;
   // regime: moderate = k2, alpha2 in [-1, 0.99]; tiny-complement = 0 < k'2 or alpha'2 <= 1e-15 (reachable only with the
-  // four-argument constructor); alpha2-large-negative = alpha2 <= -100 (Pi, G, H are formed as K + alpha2 RJ/3 with heavy
-  // cancellation there); alpha2-near-one = 0 < alpha'2 <= 1e-6 (RJ with p << x,y,z near phi = pi/2); extreme = everything else of the lattice (k2 = -1e4, 1 - 1e-12, 1; alpha2 = 1 - 1e-12, 1)
+  // four-argument constructor); alpha2-large-negative = alpha2 <= -10 (Pi, G, H are formed as K + alpha2 RJ/3 with heavy
+  // cancellation there); alpha2-near-one = 0 < alpha'2 <= 1e-5 (RJ with p << x,y,z near phi = pi/2); extreme = everything else of the lattice (k2 = -1e4, 1 - 1e-12, 1; alpha2 = 1 - 1e-12, 1)
   auto modr = [](double x) { return x >= -1 && x <= 0.99; };
   const double kp2v = o.four ? o.kp2 : 1 - o.k2, ap2v = o.four ? o.ap2 : 1 - o.a2;
-  const std::string reg = (kp2v > 0 && kp2v < 1e-100) ? "kp2-below-1e-100" : ((kp2v > 0 && kp2v <= 1e-15) || (ap2v > 0 && ap2v <= 1e-15)) ? "tiny-complement" : (modr(o.k2) && modr(o.a2) ? "moderate" : (o.a2 <= -100 ? "alpha2-large-negative" : (ap2v > 0 && ap2v <= 1e-6 ? "alpha2-near-one" : "extreme")));
+  const std::string reg = (kp2v > 0 && kp2v < 1e-100) ? "kp2-below-1e-100" : (kp2v > 0 && kp2v < 1e-24) ? "kp2-below-1e-24" : ((kp2v > 0 && kp2v <= 1e-15) || (ap2v > 0 && ap2v <= 1e-15)) ? "tiny-complement" :
+    (modr(o.k2) && modr(o.a2) ? "moderate" : (o.a2 <= -10 ? "alpha2-large-negative" : (ap2v > 0 && ap2v <= 1e-5 ? "alpha2-near-one" : "extreme")));
   auto tolk = [&](int k) { return C15tol(std::string("ellint.") + KN[k], reg); };
   const double TOL_JACOBI = C15tol("jacobi", reg), TOL_EINV = C15tol("ellint.Einv", reg), TOL_ED = C15tol("ellint.Ed", reg);
   mc::Fields F0{{"k2", fmt(o.k2)}, {"alpha2", fmt(o.a2)}, {"ctor", o.four ? "4-arg" : "2-arg"}, {"regime", reg},
-                {"complements", std::string(kp2v > 0 && kp2v < 1e-15 && ap2v > 0 && ap2v < 1e-15 ? "both-below-eps" : (kp2v > 0 && kp2v < 1e-100 ? "kp2-below-1e-100" : "ordinary"))}};
+                {"complements", std::string(kp2v > 0 && kp2v < 1e-15 && ap2v > 0 && ap2v < 1e-15 ? "both-below-eps" : (kp2v > 0 && kp2v < 1e-100 ? "kp2-below-1e-100" : (kp2v > 0 && kp2v < 1e-24 ? "kp2-below-1e-24" :
+                  (o.four && kp2v > 0 && kp2v < 1e-5 && ap2v > 0 && ap2v < 1e-5 ? "both-below-1e-5" : "ordinary"))))}};
   auto FF = [&](const std::string& kind, const char* fn) { mc::Fields F = F0; F.push_back({"fn", fn}); F.push_back({"kind", kind}); return F; };
   const std::string ok = "ellint " + o.name;
   const bool kdep_only_done = o.a2 != 0;     // F, E, D do not depend on alpha2: compare them only on the alpha2 = 0 objects, still CALL them everywhere for state checks
@@ -541,13 +558,14 @@ static void check_ellint(Ctx& ctx, const Obj& o, bool thorough) {
     double got = lib_complete(e, k); Q ref = c.complete(k);
     std::string key = ok + " complete " + KN[k];
     double err = isinfq(ref) ? (std::isinf(got) && got > 0 ? 0 : INF) : (std::isnan(got) ? INF : (double)(fabsq((Q)got - ref) / fabsq(ref)));
-    cworst(ctx, std::string("ellint.complete_relerr_over_tol.") + KN[k] + "." + reg + (bothtiny && k == 4 ? "/both-below-eps" : ""), err / (tolk(k) * EPS), [&] { return key; });
+    cworst(ctx, std::string("ellint.complete_relerr_over_tol.") + KN[k] + "." + reg + (bothtiny && k == 4 ? "/both-complements-small" : ""), err / (tolk(k) * EPS), [&] { return key; });
     if (!(err <= tolk(k) * EPS)) cfail(ctx, key, std::string(KN[k]) + "() = " + fx(got) + " but the defining integral is " + qs(ref) + " (" + fmt(err / EPS) + " eps)", FF("complete-value", KN[k]));
   }
   // ---- incomplete integrals at an amplitude
   const double PI2 = 1.5707963267948966;
   std::vector<double> phis{0, 1e-8, 0.5, PI2, PI2 - 1e-9, PI2 + 1e-9, 3, 20};
-  if (thorough) for (double x : {1e-300, 1e-3, 1.0, 1.5, PI2 - 1e-5, PI2 + 1e-5, 2.0, 3.1415926535897931, 4.0, 6.2831853071795862, 7.5, 100.0}) phis.push_back(x);
+  if (thorough) for (double x : {1e-300, 1e-3, 1.0, 1.5, PI2 - 1e-5, PI2 + 1e-5, 2.0, 3.1415926535897931, 4.0, 6.2831853071795862, 7.5, 100.0,
+                                 1e-100, 0.1, 1.2, PI2 - 1e-3, PI2 + 1e-3, 2.5, 4.7123889803846897, 10.0, 31.4, 50.0, 314.15926535897933, 1000.0, 12345.678}) phis.push_back(x);   // up to ~3900 periods
   for (int k = 0; k < 6; ++k) for (double p0 : phis) for (int s = 1; s >= -1; s -= 2) {
     if (s < 0 && p0 == 0) continue;
     Ctx::Case cs(ctx);
@@ -568,7 +586,7 @@ static void check_ellint(Ctx& ctx, const Obj& o, bool thorough) {
     if (std::fabs(phi) >= 3.14159) cond += fabsq((Q)phi) * c.complete(k) / hp;
     double err = std::isnan(got) ? INF : (double)((fabsq((Q)got - ref) - 2 * (Q)DMIN) / cond); if (err < 0) err = 0;
     if (ref == 0) err = got == 0 ? 0 : INF;
-    cworst(ctx, std::string("ellint.incomplete_err_over_tol.") + KN[k] + "." + reg + (bothtiny && k == 4 ? "/both-below-eps" : ""), err / (tolk(k) * EPS), [&] { return key; });
+    cworst(ctx, std::string("ellint.incomplete_err_over_tol.") + KN[k] + "." + reg + (bothtiny && k == 4 ? "/both-complements-small" : ""), err / (tolk(k) * EPS), [&] { return key; });
     if (!(err <= tolk(k) * EPS)) cfail(ctx, key, std::string(KN[k]) + "(phi) = " + fx(got) + " but the defining integral is " + qs(ref) + " (" + fmt(err / EPS) + " eps of the conditioned magnitude " + qs(cond) + ")", FF("incomplete-value", KN[k]));
     // odd in phi
     if (s > 0 && p0 != 0) { double neg = lib_inc(e, k, -phi); if (!(neg == -got)) cfail(ctx, key + " odd", "not odd in phi: " + fx(got) + " vs " + fx(neg), FF("odd", KN[k])); }
@@ -576,6 +594,7 @@ static void check_ellint(Ctx& ctx, const Obj& o, bool thorough) {
   }
   // ---- (sn, cn, dn) forms and the periodic parts, amplitudes in (-pi, pi]
   std::vector<double> amps{0, 1e-8, 0.5, 1.0, PI2 - 1e-9, PI2, PI2 + 1e-9, 2.5, 3.0, 3.1415926535897931};
+  if (thorough) for (double x : {1e-300, 1e-3, 0.1, 0.25, 0.75, 1.25, 1.5, PI2 - 1e-3, PI2 - 1e-6, PI2 + 1e-6, PI2 + 1e-3, 1.75, 2.0, 2.25, 2.75, 3.14}) amps.push_back(x);
   for (int k = 0; k < 6; ++k) for (double p0 : amps) for (int s = 1; s >= -1; s -= 2) {
     if (s < 0 && (p0 == 0 || p0 > 3.1415)) continue;
     if (k < 3 && kdep_only_done) continue;
@@ -590,7 +609,7 @@ static void check_ellint(Ctx& ctx, const Obj& o, bool thorough) {
       Q cond = fabsq(ref) + fabsq(f) * fabsq(cq) * fabsq(sq) + (fabsq(pq) > hp ? 2 * c.complete(k) : 0);
       double err = std::isnan(got) ? INF : (double)((fabsq((Q)got - ref) - 2 * (Q)DMIN) / cond); if (err < 0) err = 0;
       if (ref == 0) err = got == 0 ? 0 : INF;
-      cworst(ctx, std::string("ellint.sncndn_form_err_over_tol.") + KN[k] + "." + reg + (bothtiny && k == 4 ? "/both-below-eps" : ""), err / (tolk(k) * EPS), [&] { return key; });
+      cworst(ctx, std::string("ellint.sncndn_form_err_over_tol.") + KN[k] + "." + reg + (bothtiny && k == 4 ? "/both-complements-small" : ""), err / (tolk(k) * EPS), [&] { return key; });
       if (!(err <= tolk(k) * EPS)) cfail(ctx, key, std::string(KN[k]) + "(sn,cn,dn) = " + fx(got) + " but the defining integral at atan2(sn,cn) is " + qs(ref) + " (" + fmt(err / EPS) + " eps)", FF("sncndn-form-value", KN[k]));
     } else ctx.count("ellint_divergent_not_compared");
     // periodic part  delta X = (pi/2) X(phi)/X(pi/2) - phi, period pi
@@ -603,7 +622,7 @@ static void check_ellint(Ctx& ctx, const Obj& o, bool thorough) {
       Q cond = fabsq(pr) + hp * fabsq(Ir) / Cc + hp / Cc * fabsq(f) * fabsq(cq) * fabsq(sq);
       double err = std::isnan(dg) ? INF : (double)((fabsq((Q)dg - dref) - 2 * (Q)DMIN) / cond); if (err < 0) err = 0;
       if (cond == 0) err = dg == 0 ? 0 : INF;
-      cworst(ctx, std::string("ellint.delta_err_over_tol.") + KN[k] + "." + reg + (bothtiny && k == 4 ? "/both-below-eps" : ""), err / (tolk(k) * EPS), [&] { return key; });
+      cworst(ctx, std::string("ellint.delta_err_over_tol.") + KN[k] + "." + reg + (bothtiny && k == 4 ? "/both-complements-small" : ""), err / (tolk(k) * EPS), [&] { return key; });
       if (!(err <= tolk(k) * EPS)) cfail(ctx, key + " delta", std::string("delta") + KN[k] + " = " + fx(dg) + " but (pi/2) X(phi)/X(pi/2) - phi = " + qs(dref) + " (" + fmt(err / EPS) + " eps of " + qs(cond) + ")", FF("periodic-part", KN[k]));
       // period pi: (sn, cn) -> (-sn, -cn)
       double dg2 = lib_delta(e, k, -sn, -cn, dn);
@@ -627,7 +646,7 @@ static void check_ellint(Ctx& ctx, const Obj& o, bool thorough) {
   {
     double Ec = e.E();
     std::vector<double> xs{0, 1e-8, 0.5, Ec * 0.999999999, Ec, 3, 20};
-    if (thorough) for (double x : {1e-300, 1e-3, 0.9, Ec / 2, Ec * 1.000000001, 2 * Ec, 7.0, 100.0}) xs.push_back(x);
+    if (thorough) for (double x : {1e-300, 1e-3, 0.9, Ec / 2, Ec * 1.000000001, 2 * Ec, 7.0, 100.0, 0.1, Ec * 0.9, Ec * 0.999, Ec * 0.999999, 3 * Ec, 4 * Ec, 10.0, 50.0, 1000.0, 12345.678}) xs.push_back(x);
     for (double x0 : xs) for (int s = 1; s >= -1; s -= 2) {
       if (s < 0 && x0 == 0) continue;
       Ctx::Case cs(ctx);
@@ -671,7 +690,7 @@ static void check_ellint(Ctx& ctx, const Obj& o, bool thorough) {
   {
     Q Kq = c.complete(0); double Kd = isinfq(Kq) ? 5.0 : (double)Kq;
     std::vector<double> xs{0, 1e-8, 0.5, Kd / 2, Kd * 0.999999, Kd, 3, 20};
-    if (thorough) for (double x : {1e-300, 1e-3, 1.0, 2 * Kd, 3 * Kd, 7.0, 50.0}) xs.push_back(x);
+    if (thorough) for (double x : {1e-300, 1e-3, 1.0, 2 * Kd, 3 * Kd, 7.0, 50.0, 0.1, Kd * 0.9, Kd * 0.999, 1.5 * Kd, 4 * Kd, 10.0, 100.0, 1000.0, 12345.678}) xs.push_back(x);
     for (double x0 : xs) for (int s = 1; s >= -1; s -= 2) {
       if (s < 0 && x0 == 0) continue;
       Ctx::Case cs(ctx);
@@ -687,7 +706,9 @@ static void check_ellint(Ctx& ctx, const Obj& o, bool thorough) {
       if (!(err <= 1)) cfail(ctx, key, "am = " + fx(am1) + " but inversion of the defining integral gives " + qs(ref) + " (" + fmt(err * TOL_JACOBI) + " eps of the conditioned magnitude)", FF("am-value", "am"));
       auto chk3 = [&](const char* fn, double s_, double c_, double d_) {
         Q es = fabsq((Q)s_ - sq) / (fabsq(cq) * tolam + TOL_JACOBI * EPS * fabsq(sq) + 2 * (Q)DMIN), ec = fabsq((Q)c_ - cq) / (fabsq(sq) * tolam + TOL_JACOBI * EPS * fabsq(cq) + 2 * (Q)DMIN),
-          ed = fabsq((Q)d_ - dq) / (fabsq(m.k2 * sq * cq) / (dq == 0 ? (Q)1 : dq) * tolam + TOL_JACOBI * EPS * dq + 2 * (Q)DMIN);
+          // dn = sqrt(k'^2 + k^2 cn^2): the admissible error tolam of the amplitude moves |cn| by |sn| tolam; not linearised, because
+          // near am = pi/2 with tiny k' the reference cn is far below tolam
+          ed = fabsq((Q)d_ - dq) / (fabsq(m.k2) * ((fabsq(cq) + fabsq(sq) * tolam) * (fabsq(cq) + fabsq(sq) * tolam) - cq * cq) / (2 * (dq == 0 ? (Q)1 : dq)) + TOL_JACOBI * EPS * dq + 2 * (Q)DMIN);
         double w = dmax(dmax((double)es, (double)ec), (double)ed);
         if (std::isnan(s_) || std::isnan(c_) || std::isnan(d_)) w = INF;
         cworst(ctx, std::string("jacobi.") + fn + "_err_over_tol." + reg, w, [&] { return key; });
@@ -732,11 +753,11 @@ int main(int argc, char** argv) {
   // ================================================================= auxiliary latitudes
   {
     const int NE = T ? 8 : 4;                         // quick: WGS84, 1-1/150, sphere, 1+1/150 ... plus the extremes below
-    std::vector<int> eidx; if (T) for (int i = 0; i < 8; ++i) eidx.push_back(i); else eidx = {0, 3, 4, 7};
-    ctx.bound("aux.ellipsoids", T ? "b/a in {1-1/298.257223563, 1-1/150, 1, 1+1/150, 1/2, 2, 0.01, 100}, a = 6378137" : "b/a in {1-1/298.257223563, 1+1/150, 1/2, 100}, a = 6378137");
+    std::vector<int> eidx; if (T) for (int i = 0; i < 22; ++i) eidx.push_back(i); else eidx = {0, 3, 4, 7};
+    ctx.bound("aux.ellipsoids", T ? "b/a in {1-1/298.257223563, 1-+1/1000, 1-+1/200, 1-1/150, 1, 1+1/150, 0.9, 1.1, 0.75, 1.5, 1/2, 2, 1/4, 4, 0.1, 10, 0.03, 30, 0.01, 100}, a = 6378137" : "b/a in {1-1/298.257223563, 1+1/150, 1/2, 100}, a = 6378137");
     std::vector<double> al = tan_alphabet(T);
-    ctx.bound("aux.angles", fmti((long long)al.size()) + " tangents: 0, +-inf, " + (T ? "+-{4.9e-324, 2.2e-308, 1e-310, 1e-160, 1e-20, 1e-8, 1e-3, 0.1, tan 22.5, tan 30, 1, tan 67.5, 10, 1e3, tan 89.999, 1e8, 1e15, 1e20, 1e160, 1.8e308}" : "+-{1e-310, 1e-20, 1e-3, tan 30, 1, tan 89.999, 1e20}") + " as AuxAngle; x all 36 (from,to) pairs x {exact, series (|f| <= 1/150 only)}");
-    std::vector<EnvE*> envs(8, nullptr);
+    ctx.bound("aux.angles", fmti((long long)al.size()) + " tangents: 0, +-inf, " + (T ? "+-{4.9e-324, 2.2e-308, 1e-310, 1e-8, 1e-3, 0.1, 10, 1e3, 1e8, 1e15, 1.8e308, 10^k for k = -300(10)300, tan of {1e-6, 0.01, 1, 5(5)85, 22.5, 67.5, 88, 89, 89.9, 89.99, 89.999, 89.9999, 89.999999, 89.99999999} deg}" : "+-{1e-310, 1e-20, 1e-3, tan 30, 1, tan 89.999, 1e20}") + " as AuxAngle; x all 36 (from,to) pairs x {exact, series (|f| <= 1/150 only)}");
+    std::vector<EnvE*> envs(22, nullptr);
     auto env = [&](int i) { if (!envs[i]) envs[i] = new EnvE(ELLD[i]); return envs[i]; };
     ctx.sub("auxlat");
     for (int i : eidx) for (int from = 0; from < 6; ++from) { if (!ctx.take()) continue; check_aux(ctx, *env(i), from, al); }
@@ -750,7 +771,7 @@ int main(int argc, char** argv) {
     for (int i : eidx) { if (!ctx.take()) continue; check_aux_monotone(ctx, *env(i)); }
     // ================================================================= Ellipsoid
     ctx.sub("ellipsoid");
-    ctx.bound("ellipsoid.lattice", std::string("same ellipsoids x +-") + (T ? "16" : "9") + " latitudes {0,1e-10,15,30,45,60,89,89.99999,90,...} x 5 azimuths {0,30,45,90,-120}; all inspectors; the same quantities from GeodesicExact, Geodesic, Rhumb, TransverseMercator(Exact), LambertConformalConic(stdlat 0), AlbersEqualArea(stdlat 0)");
+    ctx.bound("ellipsoid.lattice", std::string("same ellipsoids x +-") + (T ? "36" : "9") + " latitudes {0,1e-10,15,30,45,60,89,89.99999,90,...} x 5 azimuths {0,30,45,90,-120}; all inspectors; the same quantities from GeodesicExact, Geodesic, Rhumb, TransverseMercator(Exact), LambertConformalConic(stdlat 0), AlbersEqualArea(stdlat 0)");
     for (int i : eidx) { if (!ctx.take()) continue; check_ellipsoid(ctx, *env(i), T); }
     ctx.sub("shape-conversions");
     if (ctx.take()) check_shape_conversions(ctx);
@@ -758,26 +779,33 @@ int main(int argc, char** argv) {
 
   // ================================================================= elliptic integrals and functions
   {
-    std::vector<double> k2s{-1e4, -1, -0.1, 0, 1e-10, 0.5, 0.99, 1 - 1e-12, 1};
+    std::vector<double> k2s{-1e4, -1, -0.1, 0, 1e-10, 0.5, 0.99, 1 - 1e-12, 1, -100, -10, 0.9, 0.999, 1 - 1e-6, 1 - 1e-9};
     std::vector<double> k2q{-1e4, -0.1, 0, 0.5, 1 - 1e-12, 1};
     const std::vector<double>& K2 = T ? k2s : k2q;
     std::vector<Obj> objs;
-    for (double k2 : K2) for (double a2 : K2) objs.push_back({"k2=" + fmt(k2) + " alpha2=" + fmt(a2), k2, a2, 1 - k2, 1 - a2, false});
+    std::vector<double> K2k = K2; if (T) for (double x : {-1000.0, 0.25, 0.75, 0.9999}) K2k.push_back(x);     // deep tier: four more moduli
+    for (double k2 : K2k) for (double a2 : K2) objs.push_back({"k2=" + fmt(k2) + " alpha2=" + fmt(a2), k2, a2, 1 - k2, 1 - a2, false});
     // four-argument constructor: complements that the two-argument form cannot represent
     for (double ap : {1e-20, 3e-20, 0.25, 1.0}) objs.push_back({"k2=1-1e-20 alpha2=1-" + fmt(ap) + " (4-arg)", 1.0, 1 - ap, 1e-20, ap, true});
     objs.push_back({"k2=1-1e-300 alpha2=0 (4-arg)", 1.0, 0.0, 1e-300, 1.0, true});
     objs.push_back({"k2=0.5 alpha2=1-1e-25 (4-arg)", 0.5, 1.0, 0.5, 1e-25, true});
     objs.push_back({"k2=-3 alpha2=0.75 (4-arg)", -3, 0.75, 4, 0.25, true});
-    ctx.bound("ellint.parameters", std::string("k2, alpha2 each in ") + (T ? "{-1e4,-1,-0.1,0,1e-10,0.5,0.99,1-1e-12,1}" : "{-1e4,-0.1,0,0.5,1-1e-12,1}") + " (all pairs, 2-argument constructor) + 7 objects of the 4-argument constructor (k'2 = 1e-20 with alpha'2 in {1e-20, 3e-20, 1/4, 1}; k'2 = 1e-300; alpha'2 = 1e-25; k2 = -3)");
-    ctx.bound("ellint.arguments", std::string("phi: +-{0,1e-8,0.5,pi/2,pi/2-1e-9,pi/2+1e-9,3,20") + (T ? ",1e-300,1e-3,1,1.5,pi/2-+1e-5,2,pi,4,2pi,7.5,100" : "") + "}; (sn,cn,dn) forms and delta-functions at 19 amplitudes in (-pi,pi]; Ed at 15 angles; Einv, am, sncndn at x: +-{0,1e-8,0.5,near and at the quarter period,3,20,...}");
+    if (T) {
+      // approaching the known-finding thresholds from the accurate side: both complements small (G uses alpha2 - k2) ...
+      for (double kp : {1e-6, 1e-8, 1e-10, 1e-12, 1e-14}) objs.push_back({"k2=1-" + fmt(kp) + " alpha2=1-" + fmt(3 * kp) + " (4-arg)", 1 - kp, 1 - 3 * kp, kp, 3 * kp, true});
+      // ... and k' -> 0 alone (am, Einv)
+      for (double kp : {1e-18, 1e-22, 1e-25, 1e-30, 1e-40, 1e-60, 1e-99}) objs.push_back({"k2=1-" + fmt(kp) + " alpha2=0 (4-arg)", 1.0, 0.0, kp, 1.0, true});
+    }
+    ctx.bound("ellint.parameters", std::string("k2, alpha2 each in ") + (T ? "{-1e4,-100,-10,-1,-0.1,0,1e-10,0.5,0.9,0.99,0.999,1-1e-6,1-1e-9,1-1e-12,1} (k2 also -1000, 0.25, 0.75, 0.9999)" : "{-1e4,-0.1,0,0.5,1-1e-12,1}") + " (all pairs, 2-argument constructor) + objects of the 4-argument constructor (k'2 = 1e-20 with alpha'2 in {1e-20, 3e-20, 1/4, 1}; k'2 = 1e-300; alpha'2 = 1e-25; k2 = -3" + (T ? "; (k'2, alpha'2 = 3 k'2) for k'2 in {1e-6,1e-8,1e-10,1e-12,1e-14}; k'2 in {1e-18,1e-22,1e-25,1e-30,1e-40,1e-60,1e-99})" : ")"));
+    ctx.bound("ellint.arguments", std::string("phi: +-{0,1e-8,0.5,pi/2,pi/2-1e-9,pi/2+1e-9,3,20") + (T ? ",1e-300,1e-100,1e-3,0.1,1,1.2,1.5,pi/2-+1e-5,pi/2-+1e-3,2,2.5,pi,4,3pi/2,2pi,7.5,10,31.4,50,100,100pi,1000,12345.678" : "") + "}; (sn,cn,dn) forms and delta-functions at " + (T ? "50" : "18") + " amplitudes in (-pi,pi]; Ed at 15 angles; Einv, am, sncndn at x: +-{0,1e-8,0.5,near and at the quarter period,3,20,...}");
     ctx.sub("elliptic");
     for (const Obj& o : objs) { if (!ctx.take()) continue; check_ellint(ctx, o, T); }
   }
 
   // ================================================================= Carlson
   {
-    std::vector<double> al = T ? std::vector<double>{0, 1e-300, 1e-10, 1, 2, 1e10, 1e300} : std::vector<double>{0, 1e-300, 1, 2, 1e300};
-    ctx.bound("carlson.alphabet", T ? "{0,1e-300,1e-10,1,2,1e10,1e300}: all admissible triples (RF, RD, RG), quadruples (RJ), pairs (RC, RF2, RG2)" : "{0,1e-300,1,2,1e300}: all admissible triples, quadruples, pairs");
+    std::vector<double> al = T ? std::vector<double>{0, 1e-300, 1e-10, 1, 2, 1e10, 1e300, 1e-50, 1e-3, 1e3, 1e50, 1e-100, 1e100} : std::vector<double>{0, 1e-300, 1, 2, 1e300};
+    ctx.bound("carlson.alphabet", T ? "{0,1e-300,1e-100,1e-50,1e-10,1e-3,1,2,1e3,1e10,1e50,1e100,1e300}: all admissible triples (RF, RD, RG), quadruples (RJ), pairs (RC, RF2, RG2)" : "{0,1e-300,1,2,1e300}: all admissible triples, quadruples, pairs");
     ctx.sub("carlson");
     for (double x : al) for (double y : al) {
       if (!ctx.take()) continue;
